@@ -134,6 +134,8 @@ func C03(r *core.Run) {
 	queryReuse(r)
 	scalarsStoredVerbatim(r)
 	kindSpellings(r)
+	floatBits(r)
+	dateExists(r)
 	r.Tick("rest")
 }
 
@@ -604,6 +606,39 @@ func leniency(r *core.Run) {
 			o.Auto("TrimPrefix(name, s.NamePrefix) before comparison")
 		} else {
 			o.Fail("the enum prefix is not stripped before the comparison: prefixed names are rejected")
+		}
+		// the name as given is tried first: the short name of an option may itself begin with the
+		// prefix (FOO_FOO_BAR is "FOO_BAR"), and stripping first turns it into another option's name
+		o2 := r.Add("R-CONST/leniency", "j5schema.EnumSchema.OptionByName | exact name first", fd2.Pos(), "enum name as given")
+		var param types.Object
+		if fd2.Type.Params != nil && len(fd2.Type.Params.List) == 1 && len(fd2.Type.Params.List[0].Names) == 1 {
+			param = pk2.TypesInfo.Defs[fd2.Type.Params.List[0].Names[0]]
+		}
+		var rawCmp, trimCall token.Pos
+		ast.Inspect(fd2.Body, func(n ast.Node) bool {
+			switch x := n.(type) {
+			case *ast.BinaryExpr:
+				if x.Op == token.EQL && rawCmp == token.NoPos {
+					for _, side := range []ast.Expr{x.X, x.Y} {
+						if id, isID := core.Unparen(side).(*ast.Ident); isID && param != nil && pk2.TypesInfo.Uses[id] == param {
+							rawCmp = x.Pos()
+						}
+					}
+				}
+			case *ast.CallExpr:
+				if core.CalleeName(pk2.TypesInfo, x) == "strings.TrimPrefix" && trimCall == token.NoPos {
+					trimCall = x.Pos()
+				}
+			}
+			return true
+		})
+		switch {
+		case rawCmp == token.NoPos:
+			o2.Fail("the option names are only compared with the name stripped of the prefix: for an enum with an option whose short name begins with the prefix (FOO_FOO_BAR → \"FOO_BAR\") the encoder's own output decodes to another option, or to none")
+		case trimCall != token.NoPos && trimCall < rawCmp:
+			o2.Fail("the prefix is stripped before the name as given is compared")
+		default:
+			o2.Auto("compared as given before the prefix is stripped")
 		}
 	}
 	fd3, pk3 := r.P.FuncDecl("lib/j5reflect", "timestampFromString")
